@@ -150,6 +150,10 @@ def sweep_file(ctx, byte):
         return PRE + b"a :=" + bb + b"b + 1;" + POST
     if ctx == "identifier":
         return (b"FUNCTION_BLOCK FB\nVAR a" + bb + b"z : INT; b : INT; END_VAR\n" + b"a" + bb + b"z := b + 1;" + POST)
+    if ctx == "eof":            # the very last byte of the file, nothing after it
+        return PRE + b"a := b + 1;" + POST + bb
+    if ctx == "eof-comment":    # the last byte of the file lies inside a comment that is closed nowhere
+        return PRE + b"a := b + 1;" + POST + b"(* caf" + bb
     raise ValueError(ctx)
 
 
@@ -164,13 +168,15 @@ def neutral(ctx, byte):
         return byte in (0x20, 0x09, 0x0a, 0x0c)   # Blank / LF / FF classes; a lone CR is no lexeme
     if ctx == "identifier":
         return ch.isalnum() and byte < 0x80 or byte == 0x5f
+    if ctx == "eof":
+        return byte in (0x20, 0x09, 0x0a, 0x0c)
     return False
 
 
 def part_sweep(rep, cov, tier):
     wd = vlib.workdir("c14_sweep")
     jobs = []
-    for ctx in ("comment", "string", "between", "identifier"):
+    for ctx in ("comment", "string", "between", "identifier", "eof", "eof-comment"):
         for byte in range(256):
             d = os.path.join(wd, "%s_%02x" % (ctx, byte))
             os.makedirs(d)
@@ -199,13 +205,35 @@ def part_sweep(rep, cov, tier):
 
     def one(j):
         ctx, byte, d, content = j
-        return clidrv.run(d, "check", ["f.st"], disk), clidrv.run(d, "tokenize", ["f.st"], disk)
+        oc, ot = clidrv.run(d, "check", ["f.st"], disk), clidrv.run(d, "tokenize", ["f.st"], disk)
+        # the same TEXT (as the documented cascade decodes the bytes) stored as plain UTF-8: the result must be the same
+        text = decode_like_cli(content)
+        twin = None
+        if text is not None and not text.startswith("\ufeff"):
+            tb = text.encode("utf-8")
+            if tb != content:
+                d2 = d + "_utf8"
+                os.makedirs(d2, exist_ok=True)
+                with open(os.path.join(d2, "f.st"), "wb") as fh:
+                    fh.write(tb)
+                twin = (clidrv.run(d2, "check", ["f.st"], disk), clidrv.run(d2, "tokenize", ["f.st"], disk))
+        return oc, ot, twin
 
     with ThreadPoolExecutor(max_workers=vlib.NCPU) as ex:
         obs = list(ex.map(one, jobs))
     n_ok = 0
-    for (ctx, byte, d, content), (oc, ot) in zip(jobs, obs):
+    n_twin = 0
+    for (ctx, byte, d, content), (oc, ot, twin) in zip(jobs, obs):
         labels = {"sweep:" + ctx}
+        if twin is not None:
+            n_twin += 1
+            tc, tt = twin
+            if (oc["rc"], oc["ok"], oc["located"]) != (tc["rc"], tc["ok"], tc["located"]) or \
+                    (ot["rc"], ot["located"]) != (tt["rc"], tt["located"]) or (ot["rc"] == 0 and ot["stdout_sha"] != tt["stdout_sha"]):
+                rep.add("bytes:%s:differs-from-the-same-text-in-utf8" % ctx, labels=labels,
+                        detail={"byte": byte, "file": {"check": oc["located"], "rc": oc["rc"], "tokenize_rc": ot["rc"]},
+                                "utf8_twin": {"check": tc["located"], "rc": tc["rc"], "tokenize_rc": tt["rc"]}},
+                        replay={"context": ctx, "byte": byte if ctx != "random" else None, "file_hex": content.hex()[:4000], "cmd": "ironplcc check f.st"})
         rp = {"context": ctx, "byte": byte if ctx != "random" else None, "file_hex": content.hex()[:4000], "cmd": "ironplcc check f.st"}
         sig = contract(oc)
         if sig:
@@ -221,7 +249,8 @@ def part_sweep(rep, cov, tier):
             if not (oc["rc"] == 0 and oc["ok"]):
                 rep.add("bytes:%s:neutral-character-changes-verdict" % ctx, labels=labels,
                         detail={"byte": byte, "observed": oc}, replay=rp)
-    cov["byte_sweep_files"] = 1024
+    cov["byte_sweep_files"] = 256 * 6
+    cov["byte_sweep_utf8_twins_compared"] = n_twin
     cov["byte_sweep_must_stay_ok"] = n_ok
     cov["random_binary_files"] = nrand
     cov["traces_validated_against_impl"] += len(jobs) * 2
